@@ -19,6 +19,9 @@
 //	K  hist  step  id  entlen  remarklen  coin  addrs  rows(sub:key:len,...)
 //	F  hist  step  where  what                            a secret was FOUND (never expected)
 //	N  hist  step  needles  haystacks  bytes              scan statistics
+//
+// With -mgr the command runs the keystore MANAGER family instead (several wallets in one
+// KeystoreManager, lines MW / MO): see manager.go.
 package main
 
 import (
